@@ -223,7 +223,8 @@ def all_cases(tier, seed):
                     if outmode == "stdout" and pre:
                         continue
                     i += 1
-                    if tier == "quick" and (i * 2654435761 + seed) % 5 != 0:
+                    # quick: a hash-selected fifth of the product (a stride would alias with the loop structure)
+                    if tier == "quick" and int(rt.h8([pname, list(cfg), spname, outmode, pre, seed]), 16) % 5 != 0:
                         continue
                     yield ("success", pname, src, cfg, spname, sparg, outmode, pre)
     for (ename, eargs), outmode, pre in itertools.product(ERRORS, ("-o", "--output", "stdout"), (False, True)):
